@@ -391,6 +391,7 @@ package main
 //@     iterates [C17] step_down: prev(c.fo.leader) == c.thisNodeName && c.fo.term > prev(c.fo.term) ==> c.fo.leader != c.thisNodeName
 //@     iterates [C17] one_vote_per_term: forall ch chan ClusterVoteResponse :: sent(ch) > prev(sent(ch)) && last(ch).Result ==> c.fo.term > prev(c.fo.term) && last(ch).Term == c.fo.term && c.fo.leader == ""
 //@     iterates [C17] stale_ignored: c.fo.term == prev(c.fo.term) && prev(c.fo.leader) != "" ==> c.fo.leader == prev(c.fo.leader) || c.fo.leader != c.thisNodeName
+//@     iterates [C17] newer_term_is_adopted: taken(prev(c.fo.healthCheck)) > prev(taken(c.fo.healthCheck)) && lastTaken(prev(c.fo.healthCheck)) != nil && lastTaken(prev(c.fo.healthCheck)).Term > prev(c.fo.term) ==> c.fo.term == lastTaken(prev(c.fo.healthCheck)).Term && c.fo.leader == lastTaken(prev(c.fo.healthCheck)).Leader
 //@     iterates [C17] leader_only_by_election: c.fo.leader == c.thisNodeName && prev(c.fo.leader) != c.thisNodeName ==> c.fo.term == prev(c.fo.term) + 1 && prev(missed) + 1 >= c.fo.voteTimeout
 
 // A node whose ring differs from the sender's refuses topic traffic - on every request, not only the first.
@@ -696,6 +697,10 @@ package main
 
 // Tags are set only after the restricted-namespace comparison with the current tags succeeded, and what is stored
 // is the normalised list.
+// (restrictedTagsEqual itself is trusted by the clauses below - it sorts copies through sort.Strings and matches a
+// regular expression, both outside the engine's reach; as a bounded stand-in it is run on all pairs of three-tag lists
+// over four tags, one namespace reserved: right answer, inputs untouched)
+//@ bounded [C19] restricted_tags_compared: i int in 0..63, j int in 0..63 :: verifRestrictedTagsOK(i, j)
 //@ ghost var restrictedTagsSame bool
 //@ ghost var restrictedTagsChecked int
 //@ ghost var restrictedTagsCheckedOld int
